@@ -22,7 +22,7 @@ def corpus_files():
     return CORPUS
 
 
-def x_plan(script, mode='file', chunks=None, eof_at=None, heap_seed=None, clock=None, args=(), budget=400000000, pid=0):
+def x_plan(script, mode='file', chunks=None, eof_at=None, heap_seed=None, clock=None, args=(), budget=400000000, pid=0, layout=None):
     p = {'id': pid, 'engine': 'X', 'mode': mode, 'script': script, 'args': list(args), 'budget_ticks': budget, 'cpu_s': 60, 'wall_s': 600}
     if chunks is not None:
         p['chunks'] = chunks
@@ -32,6 +32,8 @@ def x_plan(script, mode='file', chunks=None, eof_at=None, heap_seed=None, clock=
         p['heap_seed'] = heap_seed
     if clock is not None:
         p['clock'] = clock
+    if layout is not None:
+        p['layout'] = layout
     return p
 
 
@@ -267,28 +269,35 @@ class C20(Check):
 # ------------------------------------------------------------------------------------------- C23
 class C23(Check):
     pid = 'C23'
-    technique = 'deterministic simulation of address-space layout, heap contents and clock: seeded heap layer (padding + garbage fill), ASLR on/off, simulated getrusage; byte comparison of outputs'
+    technique = 'deterministic simulation of address-space layout, heap contents and clock: seeded heap layer (padding + garbage fill), simulated ASLR (seeded stack / brk / mmap offsets with real ASLR off), simulated getrusage; byte comparison of outputs'
     rule = ('scripts with every printing query enabled (models, values, assignments, cores, interpolants, proofs) under all engines; the same script + options + :random-seed is run under '
-            'two heap-layout seeds, with real ASLR disabled (setarch -R) and under a different simulated clock; stdout bytes and exit status must be identical; '
+            'two heap-layout seeds, under two simulated address-space layouts (seeded offsets of stack, brk heap and mmap area; real ASLR off so that the layout is a function of the plan) '
+            'and under a different simulated clock; stdout bytes and exit status must be identical; '
             'non-trivial = output >= 200 bytes containing a model, core, interpolant or proof; distinct = hash of script')
 
     def gen_case(self, seed, idx, tier):
         lines, prof, tags = gen_script(seed, self.pid, idx, queries=True)
         r = sub_rng(seed, self.pid, idx, 'var')
-        return {'pid': self.pid, 'idx': idx, 'script': '\n'.join(lines) + '\n', 'heap_a': r.randint(1, 2 ** 31), 'heap_b': r.randint(1, 2 ** 31),
+        case = {'pid': self.pid, 'idx': idx, 'script': '\n'.join(lines) + '\n', 'heap_a': r.randint(1, 2 ** 31), 'heap_b': r.randint(1, 2 ** 31),
                 'clock_b': {'ns_per_tick': r.choice([1, 50, 100000]), 'jumps': [[r.randint(10, 100000), r.choice([10 ** 9, 10 ** 12])]]}, 'mode': r.choice(['file', 'file', 'pipe'])}
+        rl = sub_rng(seed, self.pid, idx, 'layout')
+        case['layout_a'] = {'stack': 16 * rl.randint(0, 4096), 'brk': 16 * rl.randint(0, 1 << 16), 'mmap': 4096 * rl.randint(0, 1 << 12)}
+        case['layout_c'] = {'stack': 16 * rl.randint(0, 65536), 'brk': 16 * rl.randint(0, 1 << 20), 'mmap': 4096 * rl.randint(0, 1 << 16)}
+        return case
 
     def run_case(self, ctx, case):
         res = empty_result()
-        o = ctx.osim('sim')
-        o2 = ctx.osim('sim', key='sim-noaslr', prefix=['setarch', 'x86_64', '-R'])
+        # every run is executed with real ASLR off (setarch -R): the address-space layout is then a function of the plan
+        # (heap seed for the placement / contents of heap blocks, 'layout' for the simulated ASLR offsets of stack, brk and mmap)
+        o = ctx.osim('sim', key='sim-noaslr', prefix=['setarch', 'x86_64', '-R'], clean_env=True, oneshot=True)
         mode = case['mode']
         base_clock = {'ns_per_tick': 1000, 'jumps': []}
-        ra = o.run(x_plan(case['script'], mode, heap_seed=case['heap_a'], clock=base_clock))
-        rb = o.run(x_plan(case['script'], mode, heap_seed=case['heap_b'], clock=base_clock))
-        rc = o2.run(x_plan(case['script'], mode, heap_seed=case['heap_a'], clock=base_clock))
-        rd = o.run(x_plan(case['script'], mode, heap_seed=case['heap_a'], clock=case['clock_b']))
-        res['hash'] = stable_hash([log_hash(ra), log_hash(rb), log_hash(rd)])
+        la, lc = case.get('layout_a'), case.get('layout_c')
+        ra = o.run(x_plan(case['script'], mode, heap_seed=case['heap_a'], clock=base_clock, layout=la))
+        rb = o.run(x_plan(case['script'], mode, heap_seed=case['heap_b'], clock=base_clock, layout=la))
+        rc = o.run(x_plan(case['script'], mode, heap_seed=case['heap_a'], clock=base_clock, layout=lc))
+        rd = o.run(x_plan(case['script'], mode, heap_seed=case['heap_a'], clock=case['clock_b'], layout=la))
+        res['hash'] = stable_hash([log_hash(ra), log_hash(rb), log_hash(rc), log_hash(rd)])
         bump(res, 'runs', 4)
         bump(res, 'sim-ticks', sum(sim_ticks(r) for r in (ra, rb, rc, rd)))
         outs = [x_outcome(r) for r in (ra, rb, rc, rd)]
@@ -299,7 +308,7 @@ class C23(Check):
         if xe:
             bump(res, 'F-heap-allocs', xe.get('allocs', 0))
             bump(res, 'F-clock-reads', xe.get('clock_reads', 0))
-        bump(res, 'F-aslr-off-runs')
+        bump(res, 'F-aslr-simulated-layout-runs')
         out_a = outs[0][0]
         if len(out_a) >= 200 and ('define-fun' in out_a or '(proof' in out_a or re.search(r'^\([a-z0-9 ]+\)$', out_a, re.M)):
             res['nontrivial'] = True
